@@ -9,7 +9,7 @@ for d in sorted(glob.glob(os.path.join(ROOT, "seeded", "*"))):
     title = next((l.strip("# *").strip() for l in desc if l.strip()), "")
     title = re.sub(r"\s+", " ", title)[:150].replace("|", "/")
     ran = ", ".join("%s→%s" % (p, r["exit"]) for p, r in m["checks_run"].items())
-    det = ", ".join(m["detected_by"]) or "**none**"
+    det = ", ".join(m["detected_by"]) or ("stale (see meta.json)" if m.get("stale") else "**none**")
     classes = sorted({c for r in m["checks_run"].values() for c in r["failure_classes"]})
     rows.append("| %s | %s | %s | %s | %s |" % (m["name"], m["property_broken"], title, det, "; ".join(classes)[:160]))
 table = "| seeded change | breaks | what it is | detected by | failure classes reported |\n|---|---|---|---|---|\n" + "\n".join(rows)
